@@ -195,7 +195,7 @@ func (h *harness) parseFunctionStream() {
 	cases := []pf{
 		{"", "", true}, {"a, b", "return a + b", true}, {"a", "if (a) return 1; else return 2", true}, {"", "// comment", true}, {"a /* c */, b", "return /* c\n */ 1", true},
 		{"", "}),(function(){", false}, {"a", "}),(function(){", false}, {"a){}),(function(b", "", false}, {"", "})", false}, {"", "}", false}, {"", "{", false},
-		{"", "return 1 })(", false}, {"){", "", false}, {",a", "", false}, {"a b", "", false}, {"1", "", false}, {"a", "return '\\x4'", false},
+		{"", "return 1 })(", false}, {"){", "", false}, {",a", "", false}, {"a,", "", false}, {"a, b,", "return a", false}, {"a //", "return a", true}, {"a // c\n, b", "return b", true}, {"a b", "", false}, {"1", "", false}, {"a", "return '\\x4'", false},
 		{"", "x = /(?/", false}, {"", "break", false}, {"", "L: L: ;", false}, {"", "return", true}, {"", "var \\u0076ar", false}, {"", "switch(1){", false},
 		{"a /*", "*/ ) { return a", false}, {"", "/*", false}, {"", "'", false}, {"", "\xff", false}, {"class", "", false},
 	}
